@@ -988,9 +988,10 @@ func ruleP9(c *Ctx) {
 			}
 		}
 		withClosures(up, func(f *ssa.Function) {
-			allInstrs(f, func(in ssa.Instruction) {
+			// the call of the updater function value, in the closure or in a named helper the closure hands it to
+			walkHelpers(f, 2, func(_ *ssa.Function, in ssa.Instruction, _ ssa.Instruction) {
 				if call, ok := in.(*ssa.Call); ok && call.Call.StaticCallee() == nil && !call.Call.IsInvoke() && len(call.Call.Args) == 2 {
-					if tsP != nil && c.derivedFromParam(call.Call.Args[1], tsP, 0) {
+					if tsP != nil && c.derivedFromParam(resolveParam(call.Call.Args[1]), tsP, 0) {
 						okTs = true
 					}
 				}
